@@ -620,6 +620,16 @@ Goals(pre, ev, a, r) ==
               /\ \E x \in ASSETS : pre.pool[<<a.o, x>>].ex /\ NIsZero(pre.pool[<<a.o, x>>].amt) /\ NIsPos(pre.pool[<<a.o, x>>].pend)
                  /\ \E y \in ASSETS \ {x} : NIsPos(pre.pool[<<a.o, y>>].amt), "slash_partial_pool_fully_unbonding_other_bonded") \cup
          G(ok /\ NIsPos(pr.p) /\ NLt(pr.p, PREC) /\ \E k \in DOMAIN pre.recs : ~NEq(pre.recs[k].actual, post.recs[k].actual), "slash_partial_hits_pending_record") \cup
+         \* a record already reduced (by an earlier slash or an NST decrease) is hit again and the cut computed
+         \* from its ORIGINAL amount exceeds what it still owes: SlashFromUndelegation caps it at the remainder
+         G(ok /\ \E k \in DOMAIN pre.recs : /\ pre.recs[k].o = a.o /\ pre.recs[k].start >= a.infr /\ a.infr < pre.h
+                                            /\ NIsPos(pre.recs[k].actual) /\ NLt(pre.recs[k].actual, pre.recs[k].amt)
+                                            /\ NGt(DecTruncInt(DecMulInt(pr.p, pre.recs[k].amt), PREC), pre.recs[k].actual),
+           "slash_caps_reduced_record") \cup
+         G(ok /\ a.infr < pre.h /\ Cardinality({k \in DOMAIN pre.recs : pre.recs[k].o = a.o /\ pre.recs[k].start >= a.infr
+                                                    /\ ~NEq(pre.recs[k].actual, post.recs[k].actual)}) >= 2, "slash_two_records") \cup
+         G(ok /\ a.infr < pre.h /\ \E k \in DOMAIN pre.recs : pre.recs[k].o = a.o /\ pre.recs[k].start = a.infr
+                                                    /\ ~NEq(pre.recs[k].actual, post.recs[k].actual), "slash_record_started_at_infraction_height") \cup
          G(ok /\ a.infr = pre.h, "slash_infraction_at_current_height") \cup
          G(<<a.o, a.id>> \in pre.sinfo, "slash_replay") \cup
          G(NGt(a.factor, PREC), "slash_factor_above_one") \cup
@@ -650,7 +660,7 @@ AllGoals ==
    "eb_release_native", "eb_requeue_held", "eb_release_after_requeue",
    "slash_partial", "slash_full", "slash_wipes_pool", "slash_hits_pending_record", "slash_record_to_zero",
    "slash_spares_older_record", "slash_multi_asset", "slash_pool_fully_unbonding_other_bonded", "slash_partial_pool_fully_unbonding_other_bonded",
-   "slash_partial_hits_pending_record",
+   "slash_partial_hits_pending_record", "slash_caps_reduced_record", "slash_two_records", "slash_record_started_at_infraction_height",
    "slash_infraction_at_current_height", "slash_replay", "slash_factor_above_one", "slash_zero_value_operator",
    "nst_up", "nst_down_within_withdrawable", "nst_down_ends_inside_pending_records", "nst_down_reaches_shares",
    "nst_down_shares_two_operators", "nst_down_skips_zero_share_row",
